@@ -393,8 +393,8 @@ func report(prop, tier, repo, verif string, seed int, out *checkOutcome, partial
 		case "undecided":
 			total++
 			if !haveClaims || claimed[r.O.Name] {
-				file := writeReplay(replayDir, prop, r, repo, verif, "claimed obligation no longer discharges: "+r.R.Status)
-				violation(r.O.Name, file, true)
+				file, confirmed := replayViolation(replayDir, prop, r, repo, verif)
+				violation(r.O.Name, file, !confirmed)
 			} else {
 				total--
 				fmt.Printf("UNCLAIMED-UNDECIDED %s (%s)\n", r.O.Name, r.R.Status)
